@@ -247,7 +247,7 @@ func TestSchedEnum(t *testing.T) {
 	perCase := map[int]int{}
 	// a bound in schedules per work unit keeps the deepest cases inside the tier's time; units cut off by it are
 	// counted and take the claim of completeness away
-	race.LeafCap = 2000
+	race.LeafCap = 600
 	// work units: (case, first three option values); a unit whose subtree does not exist costs one run
 	for ci, cs := range pairCases {
 		cs.Seed = uint64(ci)
@@ -280,7 +280,7 @@ func TestSchedEnum(t *testing.T) {
 		rec.ClassN(fmt.Sprintf("sched_enum_pair%d_%s", ci, pairName(pairCases[ci])), cnt)
 	}
 	if race.Truncated > 0 {
-		rec.ClassN("sched_enum_work_units_cut_off_at_2000_schedules", race.Truncated)
+		rec.ClassN("sched_enum_work_units_cut_off_at_600_schedules", race.Truncated)
 	}
 	if bound < 0 && race.Truncated == 0 {
 		pairs := 0
